@@ -4,6 +4,10 @@ import DSModel.DriverLoop
 import DSGen.Cpc
 open DS
 
+def cpcEncArr : Array (Array Nat) := (DSGen.cpc_ENC_TABLES.map List.toArray).toArray
+def cpcUnaryArr : Array Nat := DSGen.cpc_UNARY65.toArray
+def cpcPermArr : Array (Array Nat) := (DSGen.cpc_COL_PERMS.map List.toArray).toArray
+
 def cpcTabs : Cpc.Tabs :=
   { hip := { invPow2 := fun i => DSGen.cpc_INV_POW2.getD i 0.0, kxpByte := fun i => DSGen.cpc_KXP_BYTE.getD i 0.0 },
     est := { iconCoeffs := fun i => DSGen.cpc_ICON_COEFFS.getD i 0.0,
@@ -23,7 +27,13 @@ def cpcTabs : Cpc.Tabs :=
              hipErr := DSGen.cpc_HIP_ERROR_CONSTANT,
              confDiv := DSGen.cpc_CONF_DIV,
              confMaxLgK := DSGen.cpc_CONF_MAX_LGK },
-    minLgK := DSGen.cpc_MIN_LG_K, maxLgK := DSGen.cpc_MAX_LG_K }
+    minLgK := DSGen.cpc_MIN_LG_K, maxLgK := DSGen.cpc_MAX_LG_K,
+    comp := { encTab := fun i b => (cpcEncArr.getD i #[]).getD b 0,
+              unary65 := fun x => cpcUnaryArr.getD x 0,
+              perm := fun p c => (cpcPermArr.getD p #[]).getD c 0 },
+    wire := { serialVersion := DSGen.cpc_SERIAL_VERSION, family := DSGen.cpc_FAMILY,
+              flagCompressed := DSGen.cpc_FLAG_IS_COMPRESSED, flagHip := DSGen.cpc_FLAG_HAS_HIP,
+              flagTable := DSGen.cpc_FLAG_HAS_TABLE, flagWindow := DSGen.cpc_FLAG_HAS_WINDOW } }
 
 def main (args : List String) : IO UInt32 := do
   match args with
